@@ -10,8 +10,38 @@ fn corpus_case(rng: &mut Rng, small: bool, sel: usize) -> ConnCase {
     let mut tries = 0;
     loop {
         tries += 1;
-        let kind = if tries <= 20 { sel % 10 } else { rng.below(10) };
+        let kind = if tries <= 20 { sel % 12 } else { rng.below(12) };
         let c = match kind {
+            10 => {
+                // Expect: 100-continue from a client that does not wait: the body comes with the head
+                // (in the same segment or not, depending on the split); the handler reads it
+                let blen = *rng.pick(&[1usize, 5, 700, 1024, 1500]);
+                let mut r = g::AReq::get("/eager");
+                r.method = "POST".into();
+                r.hdrs.push((verif_harness::recase(rng, "Expect"), (*rng.pick(&["100-continue", "100-Continue"])).into()));
+                r.expect100 = true;
+                let fr = if rng.chance(1, 3) { g::Framing::Chunked } else { g::Framing::Len };
+                g::set_body(rng, &mut r, fr, blen);
+                let a = Action { as_reader: 1, read_total: blen + 10, buf: *rng.pick(&[1usize, 64, 4096]), delay_ms: 0, fin: Finish::Respond(g::ok_resp(0, rng)), zero_read: false };
+                let reqs = vec![r, g::AReq::get("/after-eager")];
+                let a1 = g::simple_action(1, rng);
+                g::assemble_pub(rng, &reqs, vec![a, a1])
+            }
+            11 => {
+                // line ends that are not CR LF: a lone LF or a lone CR inside / instead of a line end
+                let raw: &[u8] = *rng.pick(&[
+                    &b"GET /lf HTTP/1.1\nHost: x\n\n"[..],
+                    &b"GET /lf HTTP/1.1\r\nHost: x\nX-Next: y\r\n\r\n"[..],
+                    &b"GET /lf HTTP/1.1\r\nX-Note: one\ntwo: 2\r\n\r\n"[..],
+                    &b"GET /lf HTTP/1.1\r\nX-Note: one\rtwo: 2\r\n\r\n"[..],
+                    &b"GET /lf HTTP/1.1\nHost: x\r\n\r\n"[..],
+                    &b"GET /lf HTTP/1.1\r\nHost: x\r\n\nGET /second HTTP/1.1\r\n\r\n"[..],
+                ]);
+                let mut bytes = raw.to_vec();
+                bytes.extend_from_slice(b"GET /tail HTTP/1.1\r\nHost: t\r\n\r\n");
+                let script = vec![g::simple_action(0, rng), g::simple_action(1, rng), g::simple_action(2, rng)];
+                ConnCase { bytes, mode: Mode::HalfClose, hold: None, segs: vec![], script, unix: false, intent: String::new() }
+            }
             9 => {
                 // a chunked body whose chunk data is not followed by CR LF, read by the application:
                 // how many payload bytes it obtains before the error depends on the segmentation
@@ -64,7 +94,7 @@ fn corpus_case(rng: &mut Rng, small: bool, sel: usize) -> ConnCase {
 
 fn ctl(base: ConnCase) -> CtlCase {
     let end = base_mode(&base);
-    CtlCase { write_err: None, base, cut: None, end, handlers: Handlers::Sequential, fresh: false, vanish_first: 0, vanish_data: vec![] }
+    CtlCase { write_err: None, base, cut: None, end, handlers: Handlers::Sequential, fresh: false, vanish_first: 0, vanish_data: vec![], gaps: vec![] }
 }
 
 fn obs_key(o: &Outcome) -> (Vec<String>, Vec<u8>, bool, Vec<String>) {
@@ -301,6 +331,11 @@ pub fn ahead_family(id0: usize, rng: &mut Rng, out: &mut Vec<String>) {
                 }
             }
         }
+        // pipelines are not a matter of the protocol version: kept-alive HTTP/1.0 requests too
+        if rng.chance(1, 4) {
+            r.ver = (1, 0);
+            r.hdrs.push((verif_harness::recase(rng, "Connection"), (*rng.pick(&["keep-alive", "Keep-Alive"])).into()));
+        }
         reqs.push(r);
         script.push(a);
     }
@@ -320,6 +355,48 @@ pub fn ahead_family(id0: usize, rng: &mut Rng, out: &mut Vec<String>) {
         c.base.intent = String::new();
     }
     out.push(line_of(id0, &c, &o, &format!("i_fam=ahead i_expect_received={} streamed_first={} park={}", n, if streamed_first { 1 } else { 0 }, if park { 1 } else { 0 })));
+}
+
+/// C12 (and every other connection property): time is no input.  The same conversations with a
+/// client that falls silent (1 s .. 1 h of virtual time) between requests or in the middle of
+/// one, and handlers that take 6..12 s to answer, must be served like the prompt ones.
+pub fn idle_family(id0: usize, rng: &mut Rng, out: &mut Vec<String>) {
+    let mut base = loop {
+        let c = if rng.chance(1, 2) { g::gen_c12(rng) } else { g::gen_mixed(rng) };
+        if c.mode == Mode::HalfClose && c.hold.is_none() && !c.unix && c.bytes.len() > 4 {
+            break c;
+        }
+    };
+    no_panic_script(&mut base);
+    // request ends, from the generator's metadata
+    let ends: Vec<usize> = base
+        .intent
+        .split(' ')
+        .find_map(|t| t.strip_prefix("i_ends="))
+        .map(|v| v.split(',').filter_map(|e| e.split(':').next().and_then(|x| x.parse().ok())).collect())
+        .unwrap_or_default();
+    let mut gaps: Vec<(usize, u64)> = vec![];
+    for &e in &ends {
+        if e < base.bytes.len() && rng.chance(2, 3) {
+            gaps.push((e, *rng.pick(&[1_000_000u64, 6_000_000, 61_000_000, 3_600_000_000])));
+        }
+    }
+    if rng.chance(1, 3) {
+        // silence in the middle of a message
+        gaps.push((rng.range(1, base.bytes.len() - 1), *rng.pick(&[6_000_000u64, 61_000_000])));
+    }
+    let slow = rng.chance(1, 3);
+    if slow {
+        for a in base.script.iter_mut() {
+            if rng.chance(1, 2) {
+                a.delay_ms = *rng.pick(&[6_000u64, 12_000]);
+            }
+        }
+    }
+    let mut c = ctl(base);
+    c.gaps = gaps.clone();
+    let o = execute(&c, &default_cfg(rng));
+    out.push(line_of(id0, &c, &o, &format!("i_fam=idle gaps={} slow={}", gaps.len(), if slow { 1 } else { 0 })));
 }
 
 /// C15: clients that connect and reset before the server accepts them; the server must keep
